@@ -9,6 +9,7 @@ from dalimc.core.runner import new_result, add_violation, observe, sample
 from dalimc.spec import ref_codec as R
 
 ID = "C04"
+OPTIMISED_STRIDE = {"quick": 8, "thorough": 8}      # every k-th shard once more in an interpreter started with -O
 LEVEL = "exploration"
 ENGINE = "E1"
 TECHNIQUE = "exhaustive enumeration of address/instance objects x frames against literal partition tables"
